@@ -39,11 +39,11 @@ impl Gen<'_> {
         loop {
             let x = self.rng.gen_range(0..100);
             let n = match x {
-                0..=17 => leaf("mk", 0, ""),
-                18..=30 => leaf("mk", 1, ""),
-                31..=34 => leaf("mk", 3, ""),
-                35..=47 => leaf("P", 0, ""),
-                48..=51 => leaf("tick", 0, ""),
+                0..=19 => leaf("mk", 0, ""),
+                20..=32 => leaf("mk", 1, ""),
+                33..=36 => leaf("mk", 3, ""),
+                37..=50 => leaf("P", 0, ""),
+                51 => leaf("tick", 0, ""),
                 52..=57 => {
                     if c.rank == 0 {
                         leaf("cmd", 0, if self.rng.gen_bool(0.6) { "f" } else { "g" })
@@ -215,7 +215,7 @@ impl Gen<'_> {
                     let s = subj[self.rng.gen_range(0..subj.len())];
                     Node::with("case", 0, s, vec![self.items(rest, c)])
                 }
-                92..=97 if c.rank < 2 => {
+                92..=94 if c.rank < 2 => {
                     // function definition: f at top level (body may call g), g anywhere above rank 2
                     let name = if c.rank == 0 && self.rng.gen_bool(0.6) { "f" } else { "g" };
                     let rank = if name == "f" { 1 } else { 2 };
@@ -227,10 +227,40 @@ impl Gen<'_> {
                         Node::with("def", 0, name, vec![body])
                     }
                 }
-                98..=99 if self.errors => Node::with("rx", 0, "", vec![self.cmd(rest, c)]),
+                95..=96 if self.errors => Node::with("rx", 0, "", vec![self.cmd(rest, c)]),
                 _ => continue,
             };
             return node;
         }
+    }
+
+    /// a whole program: a few top-level lines, the first ones often function definitions
+    pub fn program(&mut self, size: usize) -> Node {
+        let top = Ctx { ld: 0, infn: false, nocnt: false, rank: 0 };
+        let mut items: Vec<Node> = vec![];
+        let mut left = size;
+        if left >= 8 && self.rng.gen_bool(0.6) {
+            let b = self.rng.gen_range(2..=(left / 3).max(2));
+            let fc = Ctx { ld: 0, infn: true, nocnt: false, rank: 2 };
+            items.push(Node::with("def", 0, "g", vec![self.cmd(b, fc)]));
+            left -= b + 1;
+        }
+        if left >= 8 && self.rng.gen_bool(0.7) {
+            let b = self.rng.gen_range(2..=(left / 3).max(2));
+            let fc = Ctx { ld: 0, infn: true, nocnt: false, rank: 1 };
+            items.push(Node::with("def", 0, "f", vec![self.cmd(b, fc)]));
+            left -= b + 1;
+        }
+        while left > 0 {
+            let a = if left <= 3 || self.rng.gen_bool(0.2) { left } else { self.rng.gen_range(1..=left.min(14)) };
+            items.push(self.cmd(a, top));
+            left = left.saturating_sub(a + 1);
+        }
+        let mut it = items.into_iter().rev();
+        let mut acc = it.next().unwrap();
+        for x in it {
+            acc = Node::with("seq", 0, "", vec![x, acc]);
+        }
+        acc
     }
 }
